@@ -8,5 +8,16 @@ t = open('/verif/notes/SEED_PROMPT.md').read()
 for k, v in {"{WT}": wt, "{N}": n, "{PID}": pid, "{TITLE}": p['title'], "{STATEMENT}": p['statement'],
              "{QUANT}": p['quantifier']['text'], "{FILES}": ", ".join(p['anchors']['files'])}.items():
     t = t.replace(k, v)
+import glob, os
+prev = []
+for m in sorted(glob.glob('/verif/seeded/%s/*/meta.json' % pid)):
+    d = json.load(open(m))
+    prev.append("- %s: %s (needs: %s)" % (os.path.basename(os.path.dirname(m)), (d.get('summary') or '')[:300], (d.get('needs') or '')[:200]))
+if prev:
+    start = len(prev) + 1
+    t = t.replace("m<i>/", "m<i>/ (number them from m%d upwards)" % start)
+    t += ("\n\nChanges that were ALREADY produced for this property in an earlier round — do NOT repeat these or close "
+          "variants of them; find different code sites, mechanisms and triggering conditions:\n" + "\n".join(prev) + "\n")
+    t += "\nNever use `git stash` (shared between worktrees); use `git apply` / `git checkout -- .` only.\n"
 open("/tmp/seed_prompt_%s.txt" % pid, "w").write(t)
 print("/tmp/seed_prompt_%s.txt" % pid)
